@@ -322,6 +322,13 @@ class Rewriter:
                         depth += 1
                     elif ch in ')]':
                         depth -= 1
+                        if depth < 0:      # annotated call argument / tail expression: ends before the closer
+                            break
+                    elif ch == '}' :
+                        break              # annotated tail expression of a block
+                    elif ch == ',' and depth == 0:
+                        j += 1             # annotated struct field / call argument
+                        break
                     elif ch == '{':
                         e = match_brace(text, mask, j)
                         j = e
@@ -391,7 +398,7 @@ RULES = {
     "R8": "&self receivers of interior-mutability wrappers become &mut self in the generated wrapper",
     "R9": "format!/println!/error!/warn! statements dropped",
     "R10": "std::io::Error -> IoError, std::fs::File -> File (environment types)",
-    "R11": "loop headers: `for x in e` -> `for x in it: e` with injected invariant (overlay)",
+    "R11": "loop headers: `for x in e` -> `for x in it: e` with injected invariant; `proof { .. }` hint blocks inserted before a statement (overlay)",
     "R12": "Some(&[fd.as_raw_fd()]) -> fds1(&fd) (one-element descriptor list lent from a File)",
 }
 
@@ -672,7 +679,7 @@ class Unit:
         return text
 
     def extracted_fn(self, src, fn, within=None, nth=0, contract="", sig_rw=None, body_rw=None, loops=None,
-                     rename=None, prefix="", proof_prologue="", keep_sig=True):
+                     rename=None, prefix="", proof_prologue="", keep_sig=True, hints=None):
         s, ob, cb = src.fn_span(fn, within, nth)
         item = src.src[s:cb + 1]
         sig = src.src[s:ob].strip()
@@ -690,6 +697,13 @@ class Unit:
         body = self.rewrite_body(body, body_rw)
         if loops:
             body = inject_loop_invariants(body, loops)
+        for (pat, proof) in (hints or []):
+            # proof hints keyed by a statement regex: a `proof { .. }` block is inserted BEFORE the statement
+            mm = re.search(pat, body)
+            if not mm:
+                raise ExtractError("lost anchor: statement /%s/ for a proof hint in %s" % (pat, fn))
+            body = body[:mm.start()] + "proof { " + proof + " }\n        " + body[mm.start():]
+            self.rw._count("R11", 1)
         name = rename or fn
         self.functions.append(name)
         self.parts.append("//@begin-extracted %s::%s\n%s%s\n%s\n{%s%s}\n//@end-extracted\n" % (
